@@ -65,3 +65,24 @@ Definition nstep (s : nstate) (o : nop) : nstate :=
       end
   end.
 Definition nrun (s : nstate) (l : list nop) : nstate := fold_left nstep l s.
+
+(* ---- decision taken from a SECOND read: the destructor decrements atomically but decides
+   "was I the last owner?" by loading the counter again (instead of using the value the
+   decrement returned) ---- *)
+Inductive dop := DInc | DDecOnly | DCheck.
+Definition dstep (s : rstate) (o : dop) : rstate :=
+  match o with
+  | DInc => {| rc := S (rc s); frees := frees s; uaf := uaf s || Nat.eqb (rc s) 0 |}
+  | DDecOnly => {| rc := pred (rc s); frees := frees s; uaf := uaf s || Nat.eqb (rc s) 0 |}
+  | DCheck => (* load; free when it reads zero; loading from a node somebody already freed is a use after free *)
+      {| rc := rc s; frees := if Nat.eqb (rc s) 0 then S (frees s) else frees s;
+         uaf := uaf s || negb (Nat.eqb (frees s) 0) |}
+  end.
+Definition drun (s : rstate) (l : list dop) : rstate := fold_left dstep l s.
+Inductive dshuffle : list (list dop) -> list dop -> Prop :=
+| dshuffle_nil ths : Forall (fun t => t = []) ths -> dshuffle ths []
+| dshuffle_cons pre o t post l :
+    dshuffle (pre ++ t :: post) l -> dshuffle (pre ++ (o :: t) :: post) (o :: l).
+(* the atomic program a re-reading program stands for *)
+Definition dmerge (t : list dop) : list rop :=
+  flat_map (fun o => match o with DInc => [Inc] | DDecOnly => [Dec] | DCheck => [] end) t.
